@@ -6,7 +6,8 @@ CFG = {'assumptions': ['f64 inputs cross the boundary as bit patterns and are de
                  'for f64, SimpleKernel on i64 does not overflow (|c| <= 2^29 enforced by the driver)',
                  'coordinates are finite'],
  'count': {'quick': 40000, 'thorough': 1600000},
- 'lean_files': ['GeoModel/Hull.lean', 'GeoModel/Orient.lean', 'GeoModel/Traverse.lean', 'GeoModel/Ops/C08.lean'],
+ 'lean_files': ['GeoModel/Hull.lean', 'GeoModel/Orient.lean', 'GeoModel/Traverse.lean', 'GeoModel/Ops/C08.lean',
+                'GeoProofs/Lemmas/C08Mem.lean', 'GeoProofs/Lemmas/C08Trivial.lean'],
  'rule': 'coordinate multisets of 0-16 points (duplicates inserted) on 3x3..8x8 grids, boundary-heavy sets (many '
          'collinear boundary points), all-collinear sets, fewer than four points, exactly shifted/scaled grids, '
          'and regime-A sets with ~2^40..2^60 coordinates where the farthest-point dot product is rounded; '
